@@ -17,7 +17,8 @@ def bv(v, w):
 
 class System:
     def __init__(self, threads, atomic_locs, data_locs, K, guard_kinds, try_only=None, held_pred=None, init_mem=None,
-                 extra_invariants=None):
+                 extra_invariants=None, track_hb=True):
+        self.track_hb = track_hb
         self.threads = threads
         self.n = len(threads)
         self.atomic_locs = list(atomic_locs)
@@ -80,7 +81,12 @@ class System:
         cs = []
         for t in self.threads:
             i = t.tid
-            cs += [s[("pc", i)] == 0, z3.Not(s[("parked", i)]), z3.Not(s[("woken", i)]), z3.Not(s[("acq", i)]), z3.Not(s[("saw", i)])]
+            pc0 = 0
+            p0 = t.paths[0] or []
+            if len(p0) == 1 and p0[0].nxt is not None and not p0[0].panic and z3.is_true(z3.simplify(p0[0].cond)) \
+                    and all(z3.eq(k_, v_) for k_, v_ in p0[0].updates.items()):
+                pc0 = p0[0].nxt
+            cs += [s[("pc", i)] == pc0, z3.Not(s[("parked", i)]), z3.Not(s[("woken", i)]), z3.Not(s[("acq", i)]), z3.Not(s[("saw", i)])]
             for u in range(self.n):
                 cs.append(s[("vc", i, u)] == 0)
         for l in self.atomic_locs:
@@ -204,7 +210,8 @@ class System:
                     for name, v in t.result_syms.items():
                         if ".data" in name:
                             res_sub.append((v, c[("res", name)]))
-                    bad["race"].append(z3.And(at, z3.Not(s[("parked", i)]), race))
+                    if self.track_hb:
+                        bad["race"].append(z3.And(at, z3.Not(s[("parked", i)]), race))
                     enabled = z3.Not(s[("parked", i)])
                 elif op.kind == "syscall":
                     if op.nr != 202:
@@ -268,9 +275,12 @@ class System:
                 # global effects of the op (independent of the local path)
                 full = z3.And(sel_cp, extra_paths_guard) if park_now is None else sel_cp
                 for key, e in glob:
+                    if not self.track_hb and key[0] in ("rvc", "wtid", "wclk", "rclk"):
+                        continue
                     upd[key].append((z3.And(sel_cp, extra_paths_guard), e))
-                for u in range(n):
-                    upd[("vc", i, u)].append((z3.And(sel_cp, extra_paths_guard), vc_new[u]))
+                if self.track_hb:
+                    for u in range(n):
+                        upd[("vc", i, u)].append((z3.And(sel_cp, extra_paths_guard), vc_new[u]))
                 if park_now is not None:
                     parks, li, priv = park_now
                     upd[("parked", i)].append((z3.And(sel_cp, parks), z3.BoolVal(True)))
@@ -357,6 +367,9 @@ class System:
             self.badk["mutex"].append(self.bad_mutex(self.S[k]))
             self.badk["deadlock"].append(self.bad_deadlock(self.S[k]))
             self.badk["try"].append(self.bad_try(self.S[k]))
+        # idle (nobody moves) steps only as a suffix: they add no behaviour and bloat the search otherwise
+        for k in range(K - 1):
+            cons.append(z3.Implies(self.C[k]["sched"] == self.n, self.C[k + 1]["sched"] == self.n))
         # symmetry breaking: identical programs -> the lower tid is scheduled first
         for a, b in symmetric_pairs:
             first_a = [z3.And(self.C[k]["sched"] == a, z3.And([self.C[j]["sched"] != a for j in range(k)])) for k in range(K)]
